@@ -153,6 +153,7 @@ pub fn at_caught_up(_r: &mut Runner, _repo_inst: usize, _rpres: &RpResult) { }
 pub fn settle(r: &mut Runner, max_rounds: usize) -> Option<usize> {
     let mut last_digest = String::new();
     for round in 0..max_rounds {
+        if std::env::var("VERIF_KRILL_LOG").is_ok() { eprintln!("== settle round {round}"); }
         // Refresh everything and let it play out.
         for idx in 0..r.world.insts.len() {
             if r.world.inst(idx).is_up() {
@@ -268,6 +269,10 @@ pub fn final_convergence(r: &mut Runner) {
     if !r.oracles.c02 {
         return
     }
+    // "Once changes and faults have stopped": the network is reliable from
+    // here to the end of the run.
+    crate::net::set_quiet(true);
+    if std::env::var("VERIF_KRILL_LOG").is_ok() { eprintln!("== final_convergence: settle"); }
     let rounds = settle(r, 8);
     if r.dead.is_some() {
         return
@@ -378,6 +383,7 @@ pub fn final_convergence(r: &mut Runner) {
     }
 
     // Idempotence: further synchronisations change nothing.
+    if std::env::var("VERIF_KRILL_LOG").is_ok() { eprintln!("== final_convergence: idempotence"); }
     let before: Vec<(String, (usize, bool))> = cas.iter().map(|ca| {
         (ca.name.clone(), r.audit_tail(ca.inst, &ca.name))
     }).collect();
